@@ -184,6 +184,11 @@ def push_events(prog, fnkey, ctors=None, body=None):
                 e = strip_refs(e)
                 if e.k == "arg":
                     return r.a[1][e.a[0] - 1]
+                # the parameter behind a value-preserving conversion (`item: impl Into<String>` → `item.into()`): the actual argument, converted
+                from engine.analyses import peel_conv as _peel
+                inner = strip_refs(_peel(e))
+                if inner.k == "arg" and inner is not e:
+                    return r.a[1][inner.a[0] - 1]
                 return e
             p.item = subst(info["item"])
             p.rankval = subst(info["rank"]) if info["rank"] is not None else None
